@@ -1,5 +1,85 @@
 import AiocoapModel.Basic.Bytes
-/-! Line protocol for C07 (not built yet). -/
+import AiocoapModel.Observe.Client
+/-!
+Line protocol for C07.
+
+`C07 F <reset> <v1> <t1> <v2> <t2>`                      → `1`/`0` (`fresher`)
+`C07 R <reset> <observe 0|1> <event>*`                    the runner of `Request._run`
+   events: `M@t:code:obs|-:body:last`  message      `X@t:k`  exception
+           `OC@t`  observation.cancel()             `RC@t`  response.cancel()
+   → one group per event, separated by blanks: `<deliveries,comma|.>/<E|->` where `E` says the
+     runner has ended (the pipe has no interest left).  Deliveries:
+     `resp:code:obs:body` `rexc:k` `cb:code:obs:body` `eb:<NotObservable|ObservationCancelled|Tk>` `stop`
+-/
 namespace Aiocoap
-def handleC07 (_args : List String) : String := "out-of-model"
+open Aiocoap.Observe
+
+namespace Observe
+
+def optStr : Option Nat → String
+  | none => "-" | some n => toString n
+
+def msgStr (m : Msg) : String := s!"{m.code}:{optStr m.obs}:{m.body}"
+
+def errStr : ErrKind → String
+  | .notObservable => "NotObservable"
+  | .observationCancelled => "ObservationCancelled"
+  | .transport k => s!"T{k}"
+
+def deliveryStr : Delivery → String
+  | .response m => "resp:" ++ msgStr m
+  | .responseExc k => s!"rexc:{k}"
+  | .callback m => "cb:" ++ msgStr m
+  | .errback k => "eb:" ++ errStr k
+  | .stopInterest => "stop"
+
+def parseBool (s : String) : Option Bool :=
+  if s = "1" then some true else if s = "0" then some false else none
+
+def parseOptNat (s : String) : Option (Option Nat) :=
+  if s = "-" then some none else s.toNat?.map some
+
+def parseEvent (s : String) : Option TEvent :=
+  match s.splitOn "@" with
+  | [kind, rest] =>
+    match kind, rest.splitOn ":" with
+    | "M", [t, code, obs, body, last] => do
+      let m : Msg := { code := ← code.toNat?, obs := ← parseOptNat obs, body := ← body.toNat? }
+      pure { time := ← t.toNat?, ev := .message m (← parseBool last) }
+    | "X", [t, k] => do pure { time := ← t.toNat?, ev := .exception (← k.toNat?) }
+    | "OC", [t] => do pure { time := ← t.toNat?, ev := .obsCancel }
+    | "RC", [t] => do pure { time := ← t.toNat?, ev := .respCancel }
+    | _, _ => none
+  | _ => none
+
+def groupStr (ds : List Delivery) (s : ObsState) : String :=
+  (if ds.isEmpty then "." else ",".intercalate (ds.map deliveryStr)) ++ "/" ++
+  (if s = .ended then "E" else "-")
+
+/-- groups of a history, `none` as soon as the model is left -/
+def runGroups (cfg : Cfg) (s : ObsState) : List TEvent → Option (List String)
+  | [] => some []
+  | e :: es =>
+    let r := step cfg s e
+    if r.1 = .unmodelled then none else
+    (runGroups cfg r.1 es).map (groupStr r.2 r.1 :: ·)
+
+end Observe
+
+def handleC07 (args : List String) : String :=
+  match args with
+  | ["F", reset, v1, t1, v2, t2] =>
+    match reset.toNat?, v1.toNat?, t1.toNat?, v2.toNat?, t2.toNat? with
+    | some reset, some v1, some t1, some v2, some t2 =>
+      if fresher reset v1 t1 v2 t2 then "1" else "0"
+    | _, _, _, _, _ => "bad-op"
+  | "R" :: reset :: observe :: evs =>
+    match reset.toNat?, parseBool observe, evs.mapM parseEvent with
+    | some reset, some observe, some evs =>
+      match runGroups { reset, observe } .awaitingFirst evs with
+      | some gs => if gs.isEmpty then "-" else " ".intercalate gs
+      | none => "out-of-model"
+    | _, _, _ => "bad-op"
+  | _ => "bad-op"
+
 end Aiocoap
